@@ -41,6 +41,8 @@ type c17P struct {
 	// after the deletion finished
 	Zombie      bool `json:"zombie,omitempty"`
 	ZombieLagUs int  `json:"zombie_lag_us,omitempty"`
+	// WriterAtTailPut: writers released by WriterDelayUs < 0 start when the deleter writes the TAIL pointer
+	WriterAtTailPut bool `json:"writer_at_tail_put,omitempty"`
 }
 
 type hop struct {
@@ -139,6 +141,13 @@ func TestC17(t *testing.T) {
 			Readers: 2, Iter: 6, PaceUs: 300, DelTo: base - 1 - (i/24)%2, WriterDelayUs: 20000, Zombie: true, ZombieLagUs: []int{0, 500, 5000, 15000}[(i/2)%4]}
 		p.Writers = [][][]int{{{base + 1}, {base + 2, base + 3}}}
 		mon.Emit(r, "concurrent", p, "concurrent")
+		if i%2 == 0 {
+			// the appends land while the deleter is still writing the new tail pointer (slow pointer write)
+			q := p
+			q.SlowPtrUs, q.WriterDelayUs, q.WriterAtTailPut = 3000, -1, true
+			q.ZombieLagUs = []int{0, 300, 1500}[(i/2)%3]
+			mon.Emit(r, "concurrent", q, "concurrent")
+		}
 	}
 	r.Finish()
 }
@@ -225,7 +234,7 @@ func c17Run(c *mon.Case, p c17P) {
 						time.Sleep(time.Duration(p.ZombieLagUs) * time.Microsecond)
 					}
 				}
-				if op == "put" && strings.HasSuffix(key, "/head") {
+				if op == "put" && (strings.HasSuffix(key, "/head") || (p.WriterAtTailPut && strings.HasSuffix(key, "/tail") && deleting.Load())) {
 					ptrOnce.Do(func() { close(ptrWrite) })
 				}
 				if p.SlowPtrUs > 0 && (op == "put" || op == "put-return") && (strings.HasSuffix(key, "/head") || strings.HasSuffix(key, "/tail")) {
